@@ -73,6 +73,18 @@ theorem poll_eintr_silent :
 
 /-! ## 2. what a fault does to a connection -/
 
+/-- **result_tests**: how `handleRead`, `handleWrite` and `sendInLoop` split the result of the system call: a
+failed call (`-1`) is neither "data" nor "end of stream" for `handleRead` (so it reaches the branch that only
+logs), is not a positive count for `handleWrite` (nothing is retrieved from the backlog), and is not `>= 0`
+for `sendInLoop` (it counts as zero bytes written).  These are the tests the model's case splits on
+`ReadRes` / `WriteRes` stand for -/
+theorem result_tests (n : Int) :
+    (readGotData n ↔ 0 < n) ∧ (readGotEof n ↔ n = 0) ∧ (handleWriteTook n ↔ 0 < n) ∧ (directWriteOk n ↔ 0 ≤ n) ∧
+    ¬ readGotData (-1) ∧ ¬ readGotEof (-1) ∧ ¬ handleWriteTook (-1) ∧ ¬ directWriteOk (-1) := by
+  refine ⟨?_, ?_, ?_, ?_, ?_, ?_, ?_, ?_⟩ <;>
+    simp only [readGotData, readGotEof, handleWriteTook, directWriteOk] <;> omega
+
+
 /-- **write_fault_noop**: for every state, a writable event whose `write` fails (any errno — `EAGAIN`,
 `EINTR`, …) or takes nothing consumes the result and records the call; state word, both buffers,
 interest set, queues and ghost history are as before (in particular nothing is closed and the backlog
